@@ -96,6 +96,9 @@ def gen_spd(rng, with_constraints):
                 ops.append(("setvalue", i, rnd(rng)))
             elif n >= 3:
                 i, j = rng.sample(range(n), 2)
+                if rng.random() < 0.2:
+                    j = i          # a node tied to itself (the mesher lists the centre of a rotational cell against itself):
+                                   # periodic = no constraint, antiperiodic = x_i = -x_i = 0
                 if i in used or j in used:
                     continue
                 used.update((i, j))
@@ -459,6 +462,10 @@ def constrained_solve(n, A, b, cons):
             fixed[o[1]] = Fraction(o[2])
         else:
             i, j = o[1], o[2]
+            if i == j:
+                if o[0] == "antiperiodic":
+                    fixed[i] = Fraction(0)
+                continue
             rep[j] = i
             sign[j] = 1 if o[0] == "periodic" else -1
     free = [i for i in range(n) if rep[i] == i and i not in fixed]
